@@ -108,7 +108,7 @@ StreamNext ==
                   steps |-> << [a |-> "from", r |-> 1, x |-> V(-1, 60)],
                               [a |-> dir, r |-> 1, xs |-> <<V(-3, 0), V(1, 0), V(-5, -2)>>, rep |-> m] >>])
     \* the statistics built on the compensated sums, fed at once and as long merge histories
-    /\ \A ty \in {"f32", "f64"} : \A sty \in {"lfold1", "rfold1", "rfold1_assign", "rfold7", "tree"} :
+    /\ \A ty \in {"f32", "f64"} : \A sty \in {"lfold1", "rfold1", "rfold1_assign", "rfold7", "tree", "extend4"} :
          LET n == IF ty = "f32" THEN Rep ELSE Rep64 IN
          Emit([op |-> "mean.ci", fl |-> "arith", ty |-> ty, style |-> sty, li |-> 12,
                conf |-> [kind |-> "two", level |-> [dec |-> "0.95"]], first |-> TRUE, role |-> "stream",
